@@ -40,6 +40,8 @@ type c09Fn struct {
 	newBatch, commits, syncTrue, syncFalse, syncOther int
 	inLoop, commitTop                            bool
 	viaCoordinator                               int
+	submits                                      int            // direct coordinator Submit/SubmitWithOutcome calls
+	calls                                        map[string]int // call sites by bare function / method name
 }
 
 func c09ParseDir(repo, rel string) (*token.FileSet, map[string]*ast.File, error) {
@@ -78,6 +80,22 @@ func c09RecvName(fd *ast.FuncDecl) string {
 	return "?"
 }
 
+// c09Imports = names under which the file being scanned imports other packages (calls through them are
+// not same-package calls)
+var c09Imports = map[string]bool{}
+
+func c09SetImports(f *ast.File) {
+	c09Imports = map[string]bool{}
+	for _, im := range f.Imports {
+		path := strings.Trim(im.Path.Value, "\"")
+		name := path[strings.LastIndex(path, "/")+1:]
+		if im.Name != nil {
+			name = im.Name.Name
+		}
+		c09Imports[name] = true
+	}
+}
+
 var c09CoordinatorEntry = map[string]bool{
 	"commitPreparedRowsBatch": true, "commitPreparedRowsBatchResult": true, "commitPreparedCheckpointHWBatch": true,
 }
@@ -85,7 +103,7 @@ var c09CoordinatorEntry = map[string]bool{
 // c09Scan walks a function body, tracking loop depth and whether a statement is
 // a direct child of the function's outermost block.
 func c09Scan(fd *ast.FuncDecl) c09Fn {
-	r := c09Fn{name: fd.Name.Name}
+	r := c09Fn{name: fd.Name.Name, calls: map[string]int{}}
 	if rn := c09RecvName(fd); rn != "" {
 		r.name = rn + "." + fd.Name.Name
 	}
@@ -178,8 +196,19 @@ func c09Scan(fd *ast.FuncDecl) c09Fn {
 						}
 					}
 				}
-				if id, ok := v.Fun.(*ast.Ident); ok && c09CoordinatorEntry[id.Name] {
-					r.viaCoordinator++
+				if id, ok := v.Fun.(*ast.Ident); ok {
+					r.calls[id.Name]++
+					if c09CoordinatorEntry[id.Name] {
+						r.viaCoordinator++
+					}
+				}
+				if sel, ok := v.Fun.(*ast.SelectorExpr); ok {
+					if x, isIdent := sel.X.(*ast.Ident); !isIdent || !c09Imports[x.Name] {
+						r.calls[sel.Sel.Name]++
+					}
+					if sel.Sel.Name == "SubmitWithOutcome" || sel.Sel.Name == "Submit" {
+						r.submits++
+					}
 				}
 				if sel, ok := v.Fun.(*ast.SelectorExpr); ok && (c09CoordinatorEntry[sel.Sel.Name] || sel.Sel.Name == "SubmitWithOutcome" || sel.Sel.Name == "Submit") {
 					r.viaCoordinator++
@@ -219,6 +248,7 @@ func extractC09(repo string) (string, error) {
 	}
 	sort.Strings(names)
 	for _, n := range names {
+		c09SetImports(files[n])
 		for _, d := range files[n].Decls {
 			fd, ok := d.(*ast.FuncDecl)
 			if !ok {
@@ -231,6 +261,50 @@ func extractC09(repo string) (string, error) {
 			}
 		}
 	}
+	// transitive commit count: own Commit calls + direct coordinator submissions + call sites of
+	// same-package functions that (transitively) commit.  A mutation that commits its own batch and
+	// then calls a committing helper (a second commit in one op) shows up with a total of 2.
+	var allFns []c09Fn
+	for _, n := range names {
+		c09SetImports(files[n])
+		for _, d := range files[n].Decls {
+			fd, ok := d.(*ast.FuncDecl)
+			if !ok {
+				continue
+			}
+			r := c09Scan(fd)
+			r.file = n
+			allFns = append(allFns, r)
+		}
+	}
+	bareOf := func(name string) string { return name[strings.LastIndex(name, ".")+1:] }
+	total := map[string]int{}     // by qualified name
+	bareTotal := map[string]int{} // max over the functions sharing a bare name
+	for iter := 0; iter < 12; iter++ {
+		for i := range allFns {
+			f := &allFns[i]
+			t := f.commits + f.submits
+			for callee, cnt := range f.calls {
+				if callee != bareOf(f.name) && bareTotal[callee] > 0 {
+					t += cnt
+				}
+			}
+			total[f.name] = t
+		}
+		bareTotal = map[string]int{}
+		for name, t := range total {
+			if t > bareTotal[bareOf(name)] {
+				bareTotal[bareOf(name)] = t
+			}
+		}
+	}
+	var multi []string
+	for name, t := range total {
+		if t >= 2 {
+			multi = append(multi, fmt.Sprintf("(%s, %d)", leanStr(name), t))
+		}
+	}
+	sort.Strings(multi)
 	if len(fns) < 10 {
 		return "", fmt.Errorf("pkg/db/message: only %d batch-creating functions found; the package no longer has the expected shape", len(fns))
 	}
@@ -247,6 +321,15 @@ func extractC09(repo string) (string, error) {
 			sep = ""
 		}
 		fmt.Fprintf(&b, "  ⟨%s, %s, %d, %d, %d, %d, %d, %s, %s, %d⟩%s\n", leanStr(f.name), leanStr(f.file), f.newBatch, f.commits, f.syncTrue, f.syncFalse, f.syncOther, c09Bool(f.inLoop), c09Bool(f.commitTop), f.viaCoordinator, sep)
+	}
+	b.WriteString("]\n\n")
+
+	b.WriteString("/-- (name, n) for every function of pkg/db/message whose body contains n >= 2 commit sites, counting\n    its own Commit calls, direct coordinator submissions and calls of same-package functions that commit (transitively) -/\ndef multiCommitFns : List (String × Nat) := [")
+	for i, c := range multi {
+		if i > 0 {
+			b.WriteString(", ")
+		}
+		b.WriteString(c)
 	}
 	b.WriteString("]\n\n")
 
